@@ -74,7 +74,10 @@ class Trace(list):
   @classmethod
   def _from_string(cls,string):
     try:
-      if not re.match(r"^-?[0-9]+(,-?[0-9]+)*\Z", string):
+      if not re.match(r"^-?[0-9]+(,-?[0-9]+)*\Z", string) or \
+          re.search(r"(^|,)-0+(,|\Z)", string):
+        # (a sign is accepted so that a negative value is reported as
+        #  such by validate; "-0" is not a value)
         raise gfapy.FormatError()
       return Trace([int(v) for v in string.split(",")])
     except:
